@@ -11,6 +11,16 @@
     stream of the target + an exit line {code, sig, digest_equal (sha256 before = after)} is validated by TLC
     against spec/Trace_ToolRun.tla.  A write-class call on a writable descriptor of the target in a read-only run,
     an open with O_TRUNC/O_CREAT, or a changed digest makes the trace rejected = VIOLATION.
+(3) Round 2 -- invocations with AUXILIARY undo files.  spec/ToolRunZ.tla extends the protocol with descriptors of files
+    that are not the target (the -z undo file, the undo log replayed by e2undo): write-class calls on them are steps of
+    every class and never touch the device; the target rules are unchanged.  spec/ToolRunUniv.tla is the catalogue this
+    check and the image generator ENUMERATE FROM (Emit_ToolRunUniv -> JSON): every read-only form of every tool that
+    accepts -z x state of the -z file (absent / matching / foreign / garbage); the journal x orphan axes of the image
+    (incl. journal superblock s_errno # 0); e2undo dry runs = undo log defect (boundary catalogue over the file layout)
+    x relation of the target to the log x {-n, -nf, -nv, -nfv} x with / without -z, each with the outcome the model of
+    e2undo's guard chain expects (stage reached, io / csum / incomplete flags at the final "force a fsck" guard).  The
+    expectation is compared with the real run as EVIDENCE that the universe reaches every guard (never a verdict); the
+    verdict is ToolRunZ's: no effective write-class step on a descriptor of the target, digest equal.
     Crashes / hangs (> 20 s) on corrupted images are property C06's business: recorded under c06_observations;
     C13 is still checked on those runs.  Exit codes outside the contract table are recorded under
     exit_contract_observations (the property text is about the bytes of the device, not about exit codes)."""
@@ -25,23 +35,67 @@ PID = "C13"
 SPEC = os.path.join(VERIF, "spec")
 TRACE_TLA = os.path.join(SPEC, "Trace_ToolRun.tla")
 TRACE_CFG = os.path.join(SPEC, "Trace_ToolRun.cfg")
+TRACE_CFG_C13 = os.path.join(SPEC, "Trace_ToolRun_c13only.cfg")      # the same without INVARIANT ExitDocumented
 IOTRACE = os.path.join(VERIF, "harness", "iotrace.so")
 TIMEOUT = 20
 
-Inv = collections.namedtuple("Inv", "id tool cls argv group")
-# argv tokens: {img} private copy of the state, {out} host file, {outdir} host directory, {undo} undo file of the
-# state's profile, {host} a small host file, {bk} a backup superblock location of the -g 2048 geometries
+Inv = collections.namedtuple("Inv", "id tool cls argv group meta", defaults=(None,))
+# argv tokens: {img} private copy of the state, {out} host file, {outdir} host directory, {undo} private copy of the undo
+# log of the state (its profile's tune2fs log, or the log of an e2undo catalogue state), {zout} the file named by -z
+# (prepared in the state meta["zfile"] says), {host} a small host file, {bk} a backup superblock location of the -g 2048
+# geometries.  The target is iotrace object 0, {zout} object 1, {undo} object 2.
+UNIV_TLA = os.path.join(SPEC, "Emit_ToolRunUniv.tla")
+UNIV_CFG = os.path.join(SPEC, "Emit_ToolRunUniv.cfg")
+MIXED_SCRIPT = ["cd dir1", "ls -l", "mkdir x", "write {host} y", "cd /", "rm file_small", "stat file_small", "cat file_small",
+                "ssv mtime 1", "dirty", "close -a"]
+# argv of the read-only forms of ToolRunUniv!ZForms (the catalogue is the spec's; a form without an entry here = check broken)
+ZFORM_ARGV = {
+    ("e2fsck", "n"): ["@e2fsck", "-n", "-z", "{zout}", "{img}"],
+    ("e2fsck", "fn"): ["@e2fsck", "-fn", "-z", "{zout}", "{img}"],
+    ("e2fsck", "n_b"): ["@e2fsck", "-n", "-b", "{bk}", "-z", "{zout}", "{img}"],
+    ("e2fsck", "n_journal_only"): ["@e2fsck", "-n", "-E", "journal_only", "-z", "{zout}", "{img}"],
+    ("debugfs", "ro"): ["@debugfs", "-z", "{zout}", "-R", "ls -l", "{img}"],
+    ("debugfs", "logdump"): ["@debugfs", "-z", "{zout}", "-R", "logdump -a", "{img}"],
+    ("debugfs", "refused"): ["@debugfs", "-z", "{zout}", "-R", "mkdir newdir", "{img}"],
+    ("debugfs", "journal_refused"): ["@debugfs", "-z", "{zout}", "-R", "jr", "{img}"],
+    ("debugfs", "catastrophic"): ["@debugfs", "-c", "-z", "{zout}", "-R", "ls -l", "{img}"],
+    ("debugfs_script", "mixed"): ["@debugfs", "-z", "{zout}", "-f", "@script:" + "\n".join(MIXED_SCRIPT), "{img}"],
+    ("resize2fs", "P"): ["@resize2fs", "-P", "-z", "{zout}", "{img}"],
+    ("resize2fs", "Pf"): ["@resize2fs", "-P", "-f", "-z", "{zout}", "{img}"],
+    ("tune2fs", "l"): ["@tune2fs", "-l", "-z", "{zout}", "{img}"],
+    ("mke2fs", "n"): ["@mke2fs", "-n", "-z", "{zout}", "{img}"],
+    ("mke2fs", "n_ext4"): ["@mke2fs", "-n", "-t", "ext4", "-z", "{zout}", "{img}"],
+}
+
+
+def load_universe(work):
+    """The catalogues of spec/ToolRunUniv.tla, enumerated by TLC (its ASSUMEs -- DryNeverFsck, GuardCoverage -- are
+    evaluated in the same run: a catalogue that does not reach every disjunct of e2undo's final guard is an error)."""
+    out = os.path.join(work, "toolrun_universe.json")
+    r = T.tlc(UNIV_TLA, UNIV_CFG, workers=1, timeout=300, env={"OUT": out}, xmx="1g")
+    if not r.ok or not os.path.exists(out):
+        die_broken("TLC could not enumerate the universe (Emit_ToolRunUniv): %s\n%s" % (r.error, r.out[-1500:]))
+    u = json.load(open(out))
+    for k in ("zinv", "axes", "undo"):
+        if not u.get(k):
+            die_broken("universe catalogue %r is empty" % k)
+    missing = sorted({(z["tool"], z["form"]) for z in u["zinv"]} - set(ZFORM_ARGV))
+    if missing:
+        die_broken("no command line for the -z forms %s of ToolRunUniv!ZForms" % missing)
+    u["undo_catalogue"] = [dict(defect=d, rel=r_) for d, r_ in sorted({(x["defect"], x["rel"]) for x in u["undo"]})]
+    u["tlc"] = r
+    return u
 
 
 def _dbg(cmd, pre=()):
     return ["@debugfs"] + list(pre) + ["-R", cmd, "{img}"]
 
 
-def invocations():
+def invocations(univ=None):
     L = []
 
-    def add(id_, tool, argv, group, cls="ro"):
-        L.append(Inv(id_, tool, cls, argv, group))
+    def add(id_, tool, argv, group, cls="ro", meta=None):
+        L.append(Inv(id_, tool, cls, argv, group, meta or {}))
 
     # ---- e2fsck -n
     for name, a in [("n", ["-n"]), ("fn", ["-fn"]), ("fnv", ["-fnv"]), ("fnt", ["-fntt"]), ("n_b", ["-n", "-b", "{bk}"]),
@@ -51,7 +105,7 @@ def invocations():
                     ("fn_problem_log", ["-fn", "-E", "problem_log={out}"]), ("fnr", ["-fnr"]), ("fnd", ["-fnd"]),
                     ("n_l", ["-n", "-l", "{host_bb}"]), ("fn_k", ["-fnk"]), ("fn_unshare", ["-fn", "-E", "unshare_blocks"]),
                     ("fn_fixes_only", ["-fn", "-E", "fixes_only"]), ("fn_E_discard", ["-fn", "-E", "discard"]),
-                    ("fn_z", ["-fn", "-z", "{out}"])]:
+                    ("fn_z", ["-fn", "-z", "{zout}"])]:
         add("e2fsck-" + name, "e2fsck", ["@e2fsck"] + a + ["{img}"], "e2fsck")
     # ---- debugfs without -w: read-only requests
     ro = ["ls -l", "ls -d", "ls -p bigdir", "ls -lc dir1", "ls -r", "stat file_big", "stat <8>", "stat <2>", "stat <7>", "stat tiny",
@@ -94,8 +148,7 @@ def invocations():
         "extent_wr": ["eo file_big", "delete_node", "insert_node 1 1 1", "insert_node --after --uninit 7 2 900", "split", "fixp",
                       "set_bmap 0 100", "set_bmap --uninit 3 200", "replace_node 0 1 500", "ec"],
         "journal_wr": ["jo", "jw -b 333,334 /dev/zero", "jw -r 400", "jc", "jr", "logdump"],
-        "mixed": ["cd dir1", "ls -l", "mkdir x", "write {host} y", "cd /", "rm file_small", "stat file_small", "cat file_small",
-                  "ssv mtime 1", "dirty", "close -a"],
+        "mixed": MIXED_SCRIPT,
         "reopen": ["close", "open {img}", "ls", "close", "open -c {img}", "stats", "close", "open -e {img}", "ls"],
     }
     for n, cmds in scripts.items():
@@ -116,7 +169,7 @@ def invocations():
     for name, a in [("", []), ("c64", ["-c", "64"]), ("c8", ["-c", "8"])]:
         add("e2freefrag-" + name, "e2freefrag", ["@e2freefrag"] + a + ["{img}"], "e2freefrag")
     for name, a in [("n", ["-n"]), ("nf", ["-n", "-f"]), ("nv", ["-n", "-v"]), ("nfv", ["-nfv"]), ("h", ["-h"]), ("nh", ["-n", "-h"]),
-                    ("n_o0", ["-n", "-o", "0"]), ("nf_z", ["-n", "-f", "-z", "{out}"])]:
+                    ("n_o0", ["-n", "-o", "0"]), ("nf_z", ["-n", "-f", "-z", "{zout}"])]:
         add("e2undo-" + name, "e2undo", ["@e2undo"] + a + ["{undo}", "{img}"], "e2undo")
     for name, a in [("n", ["-n"]), ("n_ext4", ["-n", "-t", "ext4"]), ("nF_4k", ["-n", "-F", "-b", "4096"]), ("nS", ["-n", "-S"]),
                     ("nq_ext2", ["-n", "-q", "-t", "ext2", "-O", "^resize_inode"]), ("n_ext3_J", ["-n", "-t", "ext3", "-J", "size=1"]),
@@ -139,6 +192,14 @@ def invocations():
     add("ctl-mke2fs-discard", "mke2fs", ["@mke2fs", "-q", "-F", "-t", "ext2", "-E", "discard", "{img}"], "control", "rw")
     add("ctl-resize2fs-shrink", "resize2fs", ["@resize2fs", "-f", "{img}", "6M"], "control", "rw")
     add("ctl-e2undo", "e2undo", ["@e2undo", "-f", "{undo}", "{img}"], "control", "rw")
+    # ---- round 2: the catalogues of spec/ToolRunUniv.tla
+    if univ:
+        for z in sorted(univ["zinv"], key=lambda z: (z["tool"], z["form"], z["zfile"])):
+            add("z:%s-%s:%s" % (z["tool"], z["form"], z["zfile"]), z["tool"], ZFORM_ARGV[(z["tool"], z["form"])], "z_" + z["tool"],
+                meta={"zfile": z["zfile"], "zform": z["form"]})
+        for fl, zz in sorted({(x["flags"], x["z"]) for x in univ["undo"]}):
+            add("undo:%s%s" % (fl, ":z" if zz else ""), "e2undo", ["@e2undo", "-" + fl] + (["-z", "{zout}"] if zz else []) + ["{undo}", "{img}"],
+                "e2undo_catalogue", meta={"flags": fl, "z": zz, "zfile": "absent"})
     ids = [i.id for i in L]
     assert len(ids) == len(set(ids)), "duplicate invocation id"
     return L
@@ -178,11 +239,11 @@ class Runner:
 
     def state_digest(self, st):
         with self.lock:
-            d = self.digest.get(st.id)
+            d = self.digest.get(st.path)
         if d is None:
             d = hashlib.sha256(open(st.path, "rb").read()).hexdigest()
             with self.lock:
-                self.digest[st.id] = d
+                self.digest[st.path] = d           # (several states of the e2undo catalogue share one target image)
         return d
 
     def _dir(self):
@@ -205,16 +266,42 @@ class Runner:
         d = self._dir()
         img = os.path.join(d, "target.img")
         before = self.state_digest(st)
-        if self.tl.have != st.id:
+        if self.tl.have != st.path:
             G.sparse_copy(st.path, img)
-            self.tl.have = st.id
+            self.tl.have = st.path
         out, outdir, trace = os.path.join(d, "out.e2i"), os.path.join(d, "outdir"), os.path.join(d, "trace.ndjson")
-        for p in (out, trace, os.path.join(d, "script.dfs")):
+        zout, ulog = os.path.join(d, "zfile.undo"), os.path.join(d, "undo.log")
+        for p in (out, trace, os.path.join(d, "script.dfs"), zout):
             if os.path.exists(p):
                 os.unlink(p)
         shutil.rmtree(outdir, ignore_errors=True)
         os.makedirs(outdir)
-        sub = {"{img}": img, "{out}": out, "{outdir}": outdir, "{undo}": st.undo or os.path.join(d, "host_small"),
+        meta = inv.meta or {}
+        uses_undo = any("{undo}" in a for a in inv.argv)
+        uses_z = any("{zout}" in a for a in inv.argv)
+        undo_before = b""
+        if uses_undo:
+            # the undo log is an auxiliary file of the run: private copy (a tool that wrote it must not disturb other runs)
+            src = st.undo or os.path.join(d, "host_small")
+            undo_before = open(src, "rb").read()
+            with open(ulog, "wb") as f:
+                f.write(undo_before)
+        if uses_z:
+            zstate = meta.get("zfile", "absent")
+            if zstate == "matching":
+                zbytes = G.matching_undo_file(img)
+            elif zstate == "foreign":
+                zbytes = open(G.finished_log(os.path.join(self.work, "states"), st.profile), "rb").read()
+            elif zstate == "garbage":
+                zbytes = b"this is not an undo file\n" * 200
+            elif zstate == "absent":
+                zbytes = None
+            else:
+                die_broken("no recipe for -z file state %r of ToolRunUniv!ZFileStates" % zstate)
+            if zbytes is not None:
+                with open(zout, "wb") as f:
+                    f.write(zbytes)
+        sub = {"{img}": img, "{out}": out, "{outdir}": outdir, "{undo}": ulog, "{zout}": zout,
                "{host}": os.path.join(d, "host_small"), "{host_bb}": os.path.join(d, "host_bb"), "{bk}": "2049"}
         if any("{outcopy}" in a for a in inv.argv):
             G.sparse_copy(img, out)
@@ -233,7 +320,7 @@ class Runner:
                 a = sp
             argv.append(a)
         env = dict(self.env)
-        env.update({"LD_PRELOAD": IOTRACE, "VERIF_IOTRACE_TARGET": img, "VERIF_IOTRACE_OUT": trace})
+        env.update({"LD_PRELOAD": IOTRACE, "VERIF_IOTRACE_TARGET": ":".join((img, zout, ulog)), "VERIF_IOTRACE_OUT": trace})
         t0 = time.time()
         timed_out = False
         try:
@@ -257,9 +344,14 @@ class Runner:
                         events.append(json.loads(ln))
                     except ValueError:
                         die_broken("iotrace line does not parse: %r" % ln[:200])
+        errs = err.decode("utf8", "replace")
+        # what e2undo says when it reaches its final guard (evidence for the model of ToolRunUniv, never a verdict)
+        marks = {"io": int("IO error during replay" in errs), "csum": int("Undo file corruption" in errs),
+                 "incomplete": int("Incomplete undo record" in errs)}
+        undo_changed = int(uses_undo and os.path.exists(ulog) and open(ulog, "rb").read() != undo_before)
         return dict(state=st.id, inv=inv.id, tool=inv.tool, cls=inv.cls, argv=[a.replace(d, "$D") for a in argv],
                     code=rc if rc >= 0 else 0, sig=-rc if rc < 0 else 0, timeout=int(timed_out), ms=ms,
-                    digest_equal=int(after == before), events=events, stderr=err.decode("utf8", "replace")[-400:])
+                    digest_equal=int(after == before), events=events, stderr=errs[-400:], marks=marks, undo_changed=undo_changed)
 
 
 def to_behaviour(res):
@@ -272,11 +364,11 @@ def to_behaviour(res):
         fd = ev["fd"] + 4096 * pids.index(ev["pid"])
         e = ev["e"]
         if e == "open":
-            lines.append(json.dumps({"e": "open", "fd": fd, "acc": ev["acc"], "creat": ev["creat"], "trunc": ev["trunc"], "excl": ev["excl"]}))
+            lines.append(json.dumps({"e": "open", "fd": fd, "obj": ev["tgt"], "acc": ev["acc"], "creat": ev["creat"], "trunc": ev["trunc"], "excl": ev["excl"]}))
         elif e in WR_EVENTS:
-            lines.append(json.dumps({"e": e, "fd": fd, "off_hi": ev["off_hi"], "off_lo": ev["off_lo"], "len": ev["len"], "x": ev["x"]}))
+            lines.append(json.dumps({"e": e, "fd": fd, "obj": ev["tgt"], "off_hi": ev["off_hi"], "off_lo": ev["off_lo"], "len": ev["len"], "x": ev["x"]}))
         elif e in ("fsync", "close"):
-            lines.append(json.dumps({"e": e, "fd": fd}))
+            lines.append(json.dumps({"e": e, "fd": fd, "obj": ev["tgt"]}))
         else:
             die_broken("unknown iotrace event %r" % e)
     lines.append(json.dumps({"e": "exit", "code": res["code"], "sig": res["sig"], "digest_equal": res["digest_equal"]}))
@@ -285,15 +377,34 @@ def to_behaviour(res):
 
 def predict(res):
     """What Trace_ToolRun must say about this run: (verdict, detail); verdict in ok | write | digest | exitdoc | shape."""
+    res["opened_target"] = int(any(ev["e"] == "open" and ev["tgt"] == 0 for ev in res["events"]))
+    res["auxw"], res["auxopened"] = 0, []
     openfds, modified, refused, nwr = {}, False, 0, 0
+    auxfds, auxw, auxopened = {}, 0, set()
     pids = []
     for ev in res["events"]:
         if ev["pid"] not in pids:
             pids.append(ev["pid"])
         fd = ev["fd"] + 4096 * pids.index(ev["pid"])
         e = ev["e"]
+        if ev["tgt"] != 0:
+            # an auxiliary file (the -z undo file, the undo log): ToolRunZ's Aux* steps, any class, never the device
+            if e == "open":
+                if fd in openfds or fd in auxfds:
+                    return "shape", "open of an fd that is already open"
+                auxfds[fd] = ev["acc"]
+                auxopened.add(ev["tgt"])
+                auxw += bool(ev["trunc"] or ev["creat"])
+            elif fd not in auxfds:
+                return "shape", "%s on an auxiliary fd that is not open" % e
+            elif e in WR_EVENTS:
+                auxw += auxfds[fd] != "rdonly"
+            elif e == "close":
+                del auxfds[fd]
+            res["auxw"], res["auxopened"] = auxw, sorted(auxopened)
+            continue
         if e == "open":
-            if fd in openfds:
+            if fd in openfds or fd in auxfds:
                 return "shape", "open of an fd that is already open"
             openfds[fd] = ev["acc"]
             if ev["trunc"] or ev["creat"]:
@@ -326,6 +437,15 @@ def predict(res):
     return "ok", ""
 
 
+class _EvShim:
+    """Collects what model_check reports while it runs in its own thread (merged into the Evidence afterwards)."""
+    def __init__(self):
+        self.runs, self.cov = [], {}
+
+    def add_tlc(self, r, label=None):
+        self.runs.append((r, label))
+
+
 def model_check(ev, work):
     cfg = os.path.join(work, "MC_ToolRun.cfg")
     T.write_cfg(cfg, spec="Spec", constants=dict(Fds="{3, 4, 5}", MaxVer=3, MaxRefused=2, Signals="{6, 9, 11}"),
@@ -338,13 +458,85 @@ def model_check(ev, work):
         return "model: %s violated in ToolRun (design-level counterexample)\n%s" % (r.violated, r.out[-3000:])
     if not r.ok:
         die_broken("TLC failed on ToolRun: %s\n%s" % (r.error, r.out[-2000:]))
+    # the protocol with auxiliary files (-z undo file, undo log): same target rules, aux writes in every class
+    cfgz = os.path.join(work, "MC_ToolRunZ.cfg")
+    consts = dict(Fds="{3, 4}", MaxVer=3, MaxRefused=2, Signals="{9, 11}")
+    T.write_cfg(cfgz, spec="SpecZ", constants=consts,
+                invariants=["TypeOKZ", "RoUnmodified", "ModifiedIffVersion", "ExitDocumented"],
+                properties=["ReadOnlyNeverModifiesZ", "AuxNeverTouchesTarget"], constraints=["VerBound"])
+    rz = T.tlc(os.path.join(SPEC, "ToolRunZ.tla"), cfgz, workers=4, timeout=900, xmx="3g")
+    ev.add_tlc(rz, "ToolRunZ (target + auxiliary files) Fds={3,4} MaxVer=3 exhaustive BFS: TypeOKZ, RoUnmodified, ModifiedIffVersion, "
+                   "ExitDocumented, PROPERTY ReadOnlyNeverModifiesZ, AuxNeverTouchesTarget")
+    if rz.violated:
+        return "model: %s violated in ToolRunZ (design-level counterexample)\n%s" % (rz.violated, rz.out[-3000:])
+    if not rz.ok:
+        die_broken("TLC failed on ToolRunZ: %s\n%s" % (rz.error, rz.out[-2000:]))
+    # non-vacuity of the separation: a read-only run that wrote an auxiliary file and exited IS a behaviour
+    cfgn = os.path.join(work, "MC_ToolRunZ_nv.cfg")
+    T.write_cfg(cfgn, spec="SpecZ", constants=consts, invariants=["NeverRoWithAuxWrite"], constraints=["VerBound"])
+    rn = T.tlc(os.path.join(SPEC, "ToolRunZ.tla"), cfgn, workers=2, timeout=600, xmx="2g")
+    if rn.violated != "NeverRoWithAuxWrite":
+        die_broken("ToolRunZ has no behaviour in which a read-only run writes an auxiliary file (vacuous separation): %s\n%s"
+                   % (rn.error, rn.out[-1500:]))
     ev.cov["exhaustive"] = True
     return None
+
+
+def plan_round2(states, ustates, invs, univ, tier, rng):
+    """Pairs of the catalogues of ToolRunUniv.
+    -z invocations: thorough = every one on every image state (corruption recipes: with an absent -z file).  quick = the e2fsck forms with an absent -z file on EVERY
+    state of kind journal / orphan / mmp / quota (all axis points of every profile are among them) and their other -z file
+    states on a seeded sample of the axis points where e2fsck wants to write; every other -z invocation on a clean state,
+    a corrupt state and a seeded sample of those axis points; plain e2fsck -n / -fn on every axis point.
+    e2undo dry runs: thorough = the whole catalogue on every profile.  quick = every (defect, relation) with every flag
+    set (and -nf with -z) on 3 seeded profiles, with -nf on the others."""
+    zinv = [i for i in invs if i.group.startswith("z_")]
+    uinv = [i for i in invs if i.group == "e2undo_catalogue"]
+    pairs = []
+    axis_names = {}
+    for a in univ["axes"]:
+        for p, _ in G.PROFILES:
+            v = G.axis_variant(p, a["j"], a["o"])
+            if v:
+                axis_names[(p, v)] = a
+    axis_states = [s for s in states if (s.profile, s.variant) in axis_names]
+    missing = sorted(set("%s/%s" % k for k in axis_names) - {s.id for s in states})
+    if missing:
+        die_broken("image states of the axis points %s were not generated" % missing[:6])
+    wants = [s for s in axis_states if axis_names[(s.profile, s.variant)]["wants_write"]]
+    hot = [s for s in states if s.kind in ("journal", "orphan", "mmp", "quota")]
+    clean = [s for s in states if s.variant == "clean"]
+    corrupt = [s for s in states if s.kind == "corrupt"]
+    uprof = collections.defaultdict(list)
+    for s in ustates:
+        uprof[s.profile].append(s)
+    if tier == "thorough":
+        pairs += [(s, i) for s in states for i in zinv if s.kind != "corrupt" or i.meta["zfile"] == "absent"]
+        pairs += [(s, i) for s in ustates for i in uinv]
+        return pairs
+    for i in zinv:
+        if i.tool == "e2fsck" and i.meta["zfile"] == "absent":
+            pairs += [(s, i) for s in hot]
+            pairs += [(s, i) for s in rng.sample(corrupt, 4)]
+        elif i.tool == "e2fsck":
+            pairs += [(s, i) for s in rng.sample(wants, 5)]
+        else:
+            pairs += [(rng.choice(clean), i), (rng.choice(corrupt), i)] + [(s, i) for s in rng.sample(wants, 4)]
+    for i in invs:
+        if i.id in ("e2fsck-n", "e2fsck-fn"):
+            pairs += [(s, i) for s in axis_states if s.variant.startswith("ax_")]
+    full = set(rng.sample(sorted(uprof), min(3, len(uprof))))
+    for p in sorted(uprof):
+        for i in uinv:
+            if (p in full and (not i.meta["z"] or i.meta["flags"] == "nf")) or (p not in full and i.meta["flags"] == "nf" and not i.meta["z"]):
+                pairs += [(s, i) for s in uprof[p]]
+    return pairs
 
 
 def plan(states, invs, tier, rng):
     """The (state, invocation) pairs of this tier.  thorough = the full cross product (controls on clean / journal / orphan
     states only); quick = every invocation on >= 3 states of different kinds + every state at least twice."""
+    invs = [i for i in invs if not i.group.startswith("z_") and i.group != "e2undo_catalogue"]      # round 2: plan_round2
     ro = [i for i in invs if i.cls == "ro" and i.group != "c06_probe"]
     probe = [i for i in invs if i.group == "c06_probe"]
     ctl = [i for i in invs if i.cls == "rw"]
@@ -414,13 +606,18 @@ def execute(b, work, pairs):
     return results
 
 
-def build_universe(b, work, tier, only=None):
+def build_universe(b, work, tier, only=None, univ=None):
+    """-> (image states, (target, undo log) states of the e2undo catalogue, skipped recipes, seconds)"""
     t0 = time.time()
     try:
-        states, skipped = G.build_states(b, tool_env(b), os.path.join(work, "states"), tier, seed(), only=only)
+        states, skipped = G.build_states(b, tool_env(b), os.path.join(work, "states"), tier, seed(), only=only,
+                                         axes=univ["axes"] if univ else (), undo_catalogue=univ["undo_catalogue"] if univ else (),
+                                         iotrace=IOTRACE)
     except G.GenError as e:
         die_broken("image generator failed: %s" % e)
-    return states, skipped, time.time() - t0
+    ustates = [s for s in states if s.kind == "undolog"]
+    states = [s for s in states if s.kind != "undolog"]
+    return states, ustates, skipped, time.time() - t0
 
 
 def run(tier):
@@ -436,19 +633,30 @@ def run(tier):
             b = build.build()
         except RuntimeError as e:
             die_broken(str(e))
-        mc_err = model_check(ev, work)
-        if mc_err:
-            vd.violation("model", mc_err[:300], {"tlc": mc_err})
-        states, skipped, tgen = build_universe(b, work, tier)
-        invs = invocations()
+        mcpool = cf.ThreadPoolExecutor(max_workers=1)          # the protocol models are checked while the tools run
+        shim = _EvShim()
+        mcf = mcpool.submit(model_check, shim, work)
+        univ = load_universe(work)
+        ev.add_tlc(univ["tlc"], "Emit_ToolRunUniv: catalogues of ToolRunUniv enumerated, ASSUME DryNeverFsck, GuardCoverage evaluated")
+        states, ustates, skipped, tgen = build_universe(b, work, tier, univ=univ)
+        invs = invocations(univ)
         rng = random.Random(seed())
         pairs = plan(states, invs, tier, rng)
+        pairs += plan_round2(states, ustates, invs, univ, tier, random.Random(seed() + 7919))
+        states = states + ustates
         runner = Runner(b, work)            # parent-side runner: re-runs of candidates
         t0 = time.time()
         results = execute(b, work, pairs)
         trun = time.time() - t0
+        mc_err = mcf.result()                                   # (die_broken inside the thread re-raises SystemExit here)
+        mcpool.shutdown()
+        for r_, label in shim.runs:
+            ev.add_tlc(r_, label)
+        ev.cov.update(shim.cov)
+        if mc_err:
+            vd.violation("model", mc_err[:300], {"tlc": mc_err})
         return judge(ev, vd, runner, states, invs, pairs, results, work, tier, dict(gen_s=round(tgen, 1), run_s=round(trun, 1),
-                                                                                  skipped_recipes=skipped))
+                                                                                  skipped_recipes=skipped), univ)
     finally:
         shutil.rmtree(work, ignore_errors=True)
 
@@ -456,7 +664,7 @@ def run(tier):
 def oracle_selftest(ev, results, preds, behs, work):
     """Sensitivity of the oracle, every run: take accepted read-only traces and (a) insert a pwrite on a descriptor that
     was opened read-write (mke2fs -n has one), (b) flip digest_equal, (c) insert an open with O_TRUNC.  Trace_ToolRun
-    must reject all three and accept the original; otherwise the check is broken (vacuous oracle)."""
+    must reject these and accept the original (and accept the same calls made on an auxiliary file); otherwise the check is broken (vacuous oracle)."""
     k = next((k for k, (r, p) in enumerate(zip(results, preds)) if p[0] == "ok" and r["cls"] == "ro" and r["sig"] == 0 and
               any(e["e"] == "open" and e["acc"] == "rdwr" for e in r["events"])), None)
     if k is None:
@@ -468,13 +676,21 @@ def oracle_selftest(ev, results, preds, behs, work):
     oi = next(i for i, ln in enumerate(base) if json.loads(ln)["e"] == "open" and json.loads(ln)["acc"] == ("rdwr" if any(
         json.loads(x).get("acc") == "rdwr" for x in base) else "rdonly"))
     o = json.loads(base[oi])
-    wr = json.dumps({"e": "pwrite", "fd": o["fd"], "off_hi": 0, "off_lo": 1024, "len": 1024, "x": 0})
+    wr = json.dumps({"e": "pwrite", "fd": o["fd"], "obj": 0, "off_hi": 0, "off_lo": 1024, "len": 1024, "x": 0})
     ex = json.loads(base[-1]); ex["digest_equal"] = 0
-    tr = json.dumps({"e": "open", "fd": 999, "acc": "rdwr", "creat": 0, "trunc": 1, "excl": 0})
+    tr = json.dumps({"e": "open", "fd": 999, "obj": 0, "acc": "rdwr", "creat": 0, "trunc": 1, "excl": 0})
     variants = {"original": (base, False), "digest_flipped": (base[:-1] + [json.dumps(ex)], True),
                 "open_trunc_inserted": (base[:oi + 1] + [tr] + base[oi + 1:], True)}
     if o["acc"] == "rdwr":
         variants["pwrite_inserted"] = (base[:oi + 1] + [wr] + base[oi + 1:], True)
+    # the same calls on an AUXILIARY file (created, written, closed) are steps of a read-only run: must be accepted
+    aux = [json.dumps({"e": "open", "fd": 998, "obj": 1, "acc": "rdwr", "creat": 1, "trunc": 0, "excl": 0}),
+           json.dumps({"e": "pwrite", "fd": 998, "obj": 1, "off_hi": 0, "off_lo": 0, "len": 1024, "x": 0}),
+           json.dumps({"e": "close", "fd": 998, "obj": 1})]
+    variants["aux_file_written"] = (base[:oi + 1] + aux + base[oi + 1:], False)
+    # ... and a write on the target through a descriptor number that belongs to an auxiliary file is no step at all
+    variants["aux_fd_claimed_as_target"] = (base[:oi + 1] + aux[:1] + [json.dumps({"e": "pwrite", "fd": 998, "obj": 0, "off_hi": 0, "off_lo": 0,
+                                                                                 "len": 1024, "x": 0})] + base[oi + 1:], True)
     out = {}
     for name, (beh, want_rej) in variants.items():
         sub = os.path.join(work, "ost_" + name)
@@ -489,7 +705,66 @@ def oracle_selftest(ev, results, preds, behs, work):
     ev.cov["oracle_selftest"] = {"trace": "%s on %s" % (results[k]["inv"], results[k]["state"]), "verdicts": out}
 
 
-def judge(ev, vd, runner, states, invs, pairs, results, work, tier, timing):
+def round2_evidence(ev, vd, univ, sbyid, ibyid, results):
+    """Evidence about the catalogue runs (never a verdict): did the -z forms engage the undo manager, does the real
+    e2undo do what the guard-chain model of ToolRunUniv expects, which disjuncts of the final guard did dry runs reach."""
+    expect = {(x["defect"], x["rel"], x["flags"], x["z"]): x["expect"] for x in univ["undo"]}
+    zruns = [r for r in results if ibyid[r["inv"]].group.startswith("z_")]
+    eng = collections.Counter(); tot = collections.Counter(); rdwr = collections.Counter()
+    for r in zruns:
+        tot[r["tool"]] += 1
+        eng[r["tool"]] += 1 in r.get("auxopened", [])
+        rdwr[r["tool"]] += any(e["e"] == "open" and e["tgt"] == 0 and e["acc"] != "rdonly" for e in r["events"])
+    uruns = [r for r in results if ibyid[r["inv"]].group == "e2undo_catalogue"]
+    agree, undecided, dis = 0, 0, []
+    reached = collections.Counter()
+    for r in uruns:
+        _, d, rel = sbyid[r["state"]].variant.split(":")
+        m = ibyid[r["inv"]].meta
+        e = expect.get((d, rel, m["flags"], m["z"]))
+        if e is None:
+            die_broken("run %s on %s is not an element of ToolRunUniv!UndoRuns" % (r["inv"], r["state"]))
+        mk = r["marks"]
+        final = int(r["sig"] == 0 and (r["code"] == 0 or mk["csum"] or mk["io"] or mk["incomplete"]))
+        if final:
+            force = "f" in m["flags"]
+            reached["final"] += 1
+            reached["io_alone"] += bool(mk["io"] and not mk["csum"])
+            reached["csum_alone"] += bool(mk["csum"] and not mk["io"])
+            reached["force_alone"] += bool(force and not mk["io"] and not mk["csum"])
+            reached["incomplete_without_f"] += bool(mk["incomplete"] and not force)
+            reached["nothing_set"] += bool(not force and not mk["incomplete"] and not mk["io"] and not mk["csum"])
+        if not e["decided"]:
+            undecided += 1
+            continue
+        obs = dict(opens=r["opened_target"], final=final, code=r["code"], io=mk["io"], csum=mk["csum"], incomplete=mk["incomplete"])
+        ok = (r["sig"] == 0 and obs["opens"] == e["opens"] and final == int(e["stage"] == "final") and r["code"] == e["code"]
+              and (not final or (obs["io"], obs["csum"], obs["incomplete"]) == (e["io"], e["csum"], e["incomplete"])))
+        if ok:
+            agree += 1
+        else:
+            dis.append({"inv": r["inv"], "state": r["state"], "expected": e, "observed": obs, "sig": r["sig"], "stderr": r["stderr"][-160:]})
+    ev.cov["round2"] = {
+        "catalogue": {"z_invocations": len(univ["zinv"]), "axis_points": len(univ["axes"]), "undo_runs_per_profile": len(univ["undo"]),
+                      "undo_log_states_per_profile": len(univ["undo_catalogue"])},
+        "z_runs": {"count": len(zruns), "by_tool": dict(tot), "undo_manager_engaged_by_tool": dict(eng),
+                   "target_opened_writable_by_tool": dict(rdwr),
+                   "aux_file_written": sum(1 for r in zruns if r.get("auxw", 0))},
+        "e2undo_runs": {"count": len(uruns), "model_decided_and_agreeing": agree, "model_undecided": undecided,
+                        "model_disagreements": {"count": len(dis), "first": dis[:20]},
+                        "final_guard_reached_by_dry_runs": dict(reached),
+                        "undo_log_changed_by_run": sum(r.get("undo_changed", 0) for r in uruns)}}
+    # non-vacuity: unless a violation explains it, the real runs must reach the final guard with each disjunct
+    need = ("io_alone", "csum_alone", "force_alone", "incomplete_without_f", "nothing_set")
+    lack = [k for k in need if uruns and not reached[k]]
+    if lack and not vd.viol:
+        die_broken("no e2undo dry run of the catalogue reached the final guard with %s (of %d runs): the universe does not exercise it"
+                   % (", ".join(lack), len(uruns)))
+    if zruns and not sum(eng.values()) and not vd.viol:
+        die_broken("no -z run opened the undo file: the undo manager was never engaged (instrumentation or command lines wrong)")
+
+
+def judge(ev, vd, runner, states, invs, pairs, results, work, tier, timing, univ=None):
     sbyid = {s.id: s for s in states}
     ibyid = {i.id: i for i in invs}
     behs, preds = [], []
@@ -529,6 +804,21 @@ def judge(ev, vd, runner, states, invs, pairs, results, work, tier, timing):
         die_broken("oracle disagreement: the trace of %s on %s was predicted accepted but Trace_ToolRun %s it (line %s, invariant %s)\n%s"
                    % (results[k]["inv"], results[k]["state"], "rejects" if rej else "rejected only inside a chunk", matched, inv, tail[-800:]))
     accepted = len(ok_idx)
+    # runs whose only blemish is an exit status outside the contract table (an observation, not C13): TLC still decides the
+    # C13 part of every one of them -- same trace spec, RoUnmodified / ModifiedIffVersion / digest, without ExitDocumented
+    xd_idx = [k for k, p in enumerate(preds) if p[0] == "exitdoc"]
+    if xd_idx:
+        subx = os.path.join(work, "xd")
+        os.makedirs(subx, exist_ok=True)
+        resx = tracecheck.validate([behs[k] for k in xd_idx], TRACE_TLA, TRACE_CFG_C13, subx, chunk_lines=4000, jobs=min(NPROC, 8))
+        if resx["broken"]:
+            die_broken("TLC failed on a trace chunk: %s\n%s" % (resx["broken"][0]["error"], resx["broken"][0]["out_tail"][-1500:]))
+        ev.cov["states"] += resx["distinct"]; ev.cov["transitions"] += resx["generated"]
+        for f in resx["failures"]:
+            k = xd_idx[f["behaviour"]]
+            die_broken("oracle disagreement: the trace of %s on %s (exit status %d outside the contract table) was predicted C13-clean "
+                       "but Trace_ToolRun rejects it without ExitDocumented" % (results[k]["inv"], results[k]["state"], results[k]["code"]))
+        accepted += len(xd_idx)
     # ---- candidates: re-run, then let TLC decide each one alone
     cand = [k for k, p in enumerate(preds) if p[0] in ("write", "digest")]
     exitdoc = [k for k, p in enumerate(preds) if p[0] == "exitdoc"]
@@ -583,10 +873,13 @@ def judge(ev, vd, runner, states, invs, pairs, results, work, tier, timing):
             ev.nontrivial((r["inv"], r["state"]))
     ev.cov["rule"] = ("universe = image states x invocations; one evaluation = one tool run under iotrace.so on a private copy of the state, "
                       "its event stream + exit line validated against Trace_ToolRun; non-trivial = read-only-class run on an image state "
-                      "other than 'clean' (journal needing recovery, orphan list/file, MMP, quota, corruption recipe, random damage, post-tune2fs); "
-                      "distinct by (invocation id, state id)")
+                      "other than 'clean' (journal needing recovery / s_errno set, orphan list/file, MMP, quota, corruption recipe, random damage, "
+                      "post-tune2fs, or a (target, undo log) pair of the e2undo catalogue); distinct by (invocation id, state id).  The -z forms, "
+                      "the journal x orphan axis points and the e2undo dry-run catalogue are enumerated by TLC from spec/ToolRunUniv.tla")
     ev.cov["universe"] = {"states": len(states), "profiles": len(G.PROFILES), "invocations_ro": len([i for i in invs if i.cls == "ro" and i.group != "c06_probe"]),
                           "invocations_control_rw": len([i for i in invs if i.cls == "rw"]), "pairs_run": len(pairs),
+                          "invocations_z": len([i for i in invs if i.group.startswith("z_")]),
+                          "invocations_e2undo_catalogue": len([i for i in invs if i.group == "e2undo_catalogue"]),
                           "states_by_kind": dict(collections.Counter(s.kind for s in states)),
                           "runs_by_group": dict(collections.Counter(ibyid[r["inv"]].group for r in results))}
     ev.cov["exit_histogram"] = {k: dict(v) for k, v in sorted(hist.items())}
@@ -600,17 +893,27 @@ def judge(ev, vd, runner, states, invs, pairs, results, work, tier, timing):
     ev.cov["candidates"] = {"write_or_digest": len(cand), "confirmed": len(confirmed), "not_reproduced_on_rerun": unstable,
                             "beyond_confirmation_budget": max(0, len(cand) - maxconf)}
     ev.cov["timing"] = timing
+    if univ:
+        round2_evidence(ev, vd, univ, sbyid, ibyid, results)
     for k in (0, len(results) // 3, 2 * len(results) // 3):
         if k < len(results):
             ev.sample({"state": results[k]["state"], "inv": results[k]["inv"], "argv": results[k]["argv"], "exit": results[k]["code"],
                        "sig": results[k]["sig"], "digest_equal": results[k]["digest_equal"], "trace": [json.loads(x) for x in behs[k]]})
-    ev.cov["checker_cmd"] = ("TRACE=<chunk> tlc -workers 1 -config spec/Trace_ToolRun.cfg spec/Trace_ToolRun.tla (POSTCONDITION TraceAccepted, "
-                             "INVARIANT RoUnmodified, ModifiedIffVersion, ExitDocumented)")
+    ev.cov["checker_cmd"] = ("TRACE=<chunk> tlc -workers 1 -config spec/Trace_ToolRun.cfg spec/Trace_ToolRun.tla (EXTENDS ToolRunZ; POSTCONDITION "
+                             "TraceAccepted, INVARIANT RoUnmodified, ModifiedIffVersion, ExitDocumented; runs with an undocumented exit status are "
+                             "validated with Trace_ToolRun_c13only.cfg = the same without ExitDocumented)")
     ev.assumptions = [
         "a write-class system call (write, pwrite, pwritev, ftruncate, fallocate, open with O_TRUNC/O_CREAT) on a descriptor of the target "
         "that permits writing counts as a modification even if it stores the bytes already there (device-level reading of 'modify'; "
         "with the fixed fake clock a superblock flush can rewrite identical bytes); the sha256 comparison is the independent second oracle",
         "a write-class call on an O_RDONLY descriptor cannot change the device (EBADF) and is only counted (refused_write_attempts)",
+        "the file named by -z and the undo log given to e2undo are auxiliary files, not the target (ToolRunZ): calls on them are traced "
+        "(iotrace objects 1 and 2) and are steps of every class; each run gets a private copy of the undo log",
+        "the expectation of the e2undo guard-chain model (ToolRunUniv!Expect) is compared with exit status, open() of the target and the three "
+        "messages of the final stage as evidence that the catalogue reaches every guard; a disagreement is reported, never a C13 verdict; "
+        "outcomes the model leaves undecided (killed recordings; -f with an unreadable first key block or a wrong block size / key count) "
+        "are still C13-checked",
+        "on the MMP profile the generator records with the MMP bit hidden (a read-write open sleeps 11 s) and re-syncs the log's superblock copy",
         "the target is a regular file on tmpfs: block-device-only paths (BLKDISCARD / BLKZEROOUT ioctls, O_EXCL busy checks, mounted-fs checks) are not exercised",
         "debugfs requests that explicitly ask for a read-write open (open -w, init_filesys) are not 'debugfs without -w' and are not in the universe; "
         "e2image -I (writes the device by design) is not in the universe",
@@ -628,9 +931,10 @@ def replay(path):
     work = fast_tmp()
     try:
         b = build.build()
-        states, _, _ = build_universe(b, work, rp.get("tier", "quick"), only=[rp["state"]])
-        st = [s for s in states if s.id == rp["state"]]
-        inv = [i for i in invocations() if i.id == rp["inv"]]
+        univ = load_universe(work)
+        states, ustates, _, _ = build_universe(b, work, rp.get("tier", "quick"), only=[rp["state"]], univ=univ)
+        st = [s for s in states + ustates if s.id == rp["state"]]
+        inv = [i for i in invocations(univ) if i.id == rp["inv"]]
         if not st or not inv:
             die_broken("replay refers to an unknown state or invocation: %s / %s" % (rp["state"], rp["inv"]))
         runner = Runner(b, work)
